@@ -48,7 +48,9 @@ WHOLE = {
             "crypto_aead/aegis128l/aead_aegis128l.c", "crypto_aead/aegis256/aead_aegis256.c", "crypto_core/softaes/softaes.c", "include/sodium/private/softaes.h",
             "crypto_aead/aegis128l/aegis128l_aesni.c", "crypto_aead/aegis256/aegis256_aesni.c", "crypto_aead/aes256gcm/aesni/aead_aes256gcm_aesni.c"],
     "C03": ["crypto_stream/chacha20/dolbeau/u0.h", "crypto_stream/chacha20/dolbeau/u1.h", "crypto_stream/chacha20/dolbeau/u4.h", "crypto_stream/chacha20/dolbeau/u8.h",
-            "crypto_stream/chacha20/dolbeau/chacha20_dolbeau-avx2.c", "crypto_stream/chacha20/dolbeau/chacha20_dolbeau-ssse3.c"],
+            "crypto_stream/chacha20/dolbeau/chacha20_dolbeau-avx2.c", "crypto_stream/chacha20/dolbeau/chacha20_dolbeau-ssse3.c",
+            "crypto_stream/salsa20/xmm6int/u0.h", "crypto_stream/salsa20/xmm6int/u1.h", "crypto_stream/salsa20/xmm6int/u4.h", "crypto_stream/salsa20/xmm6int/u8.h",
+            "crypto_stream/salsa20/xmm6int/salsa20_xmm6int-sse2.c", "crypto_stream/salsa20/xmm6int/salsa20_xmm6int-avx2.c"],
 }
 OWNER = {"fe25519_sqmul": "C07", "fe25519_cneg": "C07", "fe25519_abs": "C07", "fe25519_unchecked_sqrt": "C07", "fe25519_sqrt": "C07", "fe25519_notsquare": "C07", "fe25519_reduce64": "C07",
          "ge25519_mont_to_ed": "C07", "ge25519_xmont_to_ymont": "C07", "ge25519_clear_cofactor": "C07", "ge25519_elligator2": "C07", "ge25519_from_uniform": "C07", "ge25519_from_hash": "C07",
